@@ -163,6 +163,9 @@ func genPopulation(r *Rng, c *sessCase, v5mask int, wills bool, timed bool) {
 func init() {
 	// C20: shutdown over every kind of population
 	props["C20"] = &sessProp{id: "C20", gen: func(r *Rng, i int, tier string) *sessCase {
+		if i%30 == 14 {
+			return &sessCase{Closing: true}
+		}
 		if i%30 == 29 {
 			// the whole server: listeners, established connections and connections still in their handshake
 			lc := &lisCase{}
